@@ -366,6 +366,12 @@ def let_env(body):
             q = n["pat"]
             if q.get("k") == "Binding" and "Mut" not in (q.get("mode") or "").split(",")[-1] and not q.get("sub") and q.get("hid") is not None:
                 env[q["hid"]] = n["init"]
+            elif q.get("k") == "Struct" and field_path(n["init"]) is not None and not n.get("els"):
+                # `let Task { budget: b, sentence: s } = self;` -- each binding is that field of the (pure) place
+                for fd in q.get("fields", []):
+                    sub = fd.get("pat", {})
+                    if sub.get("k") == "Binding" and "Mut" not in (sub.get("mode") or "").split(",")[-1] and not sub.get("sub") and sub.get("hid") is not None:
+                        env[sub["hid"]] = {"k": "Field", "e": n["init"], "name": fd["name"], "line": n.get("line"), "exp": False}
             elif q.get("k") == "Tuple" and field_path(n["init"]) is not None:
                 # `let (l, r) = self.format.sentence.truth_brackets;` -- each binding is the corresponding field of the (pure) place
                 for i_, sub in enumerate(q.get("pats", [])):
